@@ -153,6 +153,11 @@ pub fn run(p: &Params) -> Run {
         let sch = if dflt_schema { Schema { defs: format!("{}\n{}", MAIN_DEF_DFLT, JOIN_DEF), has_bool: false } } else { gen_schema(&mut rng) };
         let mut gq = gen_query(&mut rng, &sch, &opts, &jp);
         if it % 3 == 0 { for _ in 0..6 { if gq.joined { break; } gq = gen_query(&mut rng, &sch, &opts, &jp); } }
+        // the simplest statement shapes as well (the ones a special-cased fast path would pick)
+        const MINIMAL: &[(&str, bool)] = &[("SELECT COUNT(*) FROM t", true), ("SELECT COUNT(*) AS n FROM t", true), ("SELECT * FROM t", false), ("SELECT input FROM t", false),
+            ("SELECT k FROM t", false), ("SELECT COUNT(v) FROM t", true), ("SELECT SUM(v) FROM t", true), ("SELECT k, COUNT(*) FROM t GROUP BY k", true),
+            ("SELECT DISTINCT k FROM t", false), ("SELECT k FROM t LIMIT 3", false), ("SELECT MAX(v), MIN(v) FROM t", true)];
+        if it % 6 == 1 { let (t, a) = *rng.pick(MINIMAL); gq = GenQuery { text: t.to_owned(), is_aggregate: a, joined: false }; }
         let prepared = match prepare(&sch.defs, &gq.text) { Ok(p) => p, Err(_) => { run.count("rejected"); continue; } };
         let main: &TableDefinition = prepared.tables.get("t").unwrap();
         let jtab: &TableDefinition = prepared.tables.get("u").unwrap();
